@@ -150,10 +150,15 @@ def split_lines(text):
 
 def diff_facts(sc, before, so, out_bytes):
     """C18 facts: old / new as sequences of line identifiers, the printed hunks / mismatches in the same terms."""
-    path = sc["diff_facts"]["path"]
-    ent = next(e for e in sc["tree"] if e["path"] == path)
-    old = before[path]["bytes"].decode("utf-8", "replace")
-    new = (ent.get("expect") or {}).get("fmt")
+    if sc["diff_facts"].get("stdin"):
+        # stdin mode: the checked text is what was piped in, the formatted text the library's output for it
+        old = sc["stdin"]["text"]
+        new = (sc.get("stdout_expect") or {}).get(sc["diff_facts"]["expect_key"])
+    else:
+        path = sc["diff_facts"]["path"]
+        ent = next(e for e in sc["tree"] if e["path"] == path)
+        old = before[path]["bytes"].decode("utf-8", "replace")
+        new = (ent.get("expect") or {}).get("fmt")
     ids = {}
 
     def lid(line):
